@@ -163,7 +163,7 @@ var c18Elem = regexp.MustCompile(`(?s)<([A-Za-z_0-9]+)( [^>]*)?>([^<]*)</([A-Za-
 func TestVerifC18KeyMalformed(t *testing.T) {
 	r := vkit.Start(t, "C18", "key-xml-malformed", 100*time.Second, 400*time.Second)
 	defer r.Finish()
-	r.Rule = "public and private key documents (6 bases, with revocation parts): every leaf element deleted, emptied, negated ('-' prefix), garbled (non-decimal), Bases num attribute +-1, a base element added/removed, modulus of unsupported length, inconsistent p/p' and non-safe primes (non-demo); through every reading entry point; non-trivial = distinct (document, mutation, reader); oracle: an error is returned - never a key, never a panic (elements that are optional by design - ECDSA, G, H, Features, Counter, ExpiryDate - may be absent)"
+	r.Rule = "public and private key documents (6 bases, with revocation parts): every leaf element deleted, emptied, negated ('-' prefix), garbled (non-decimal), Bases num attribute +-1, a base element added/removed, modulus of unsupported length (half, 1000-fold, and every length 1..9 bits short of / 1, 7, 8, 9 bits beyond 1024, 2048, 4096), inconsistent p/p' and non-safe primes (non-demo); through every reading entry point; non-trivial = distinct (document, mutation, reader); oracle: an error is returned - never a key, never a panic (elements that are optional by design - ECDSA, G, H, Features, Counter, ExpiryDate - may be absent)"
 	sk, pk := c18Keys(t, 6, true)
 	var sb, sp strings.Builder
 	pk.WriteTo(&sb)
@@ -213,6 +213,13 @@ func TestVerifC18KeyMalformed(t *testing.T) {
 				mut{"modulus-length", "modulus of unsupported length (n*2^10)", regexp.MustCompile(`<n>(\d+)</n>`).ReplaceAllString(d.xml, "<n>${1}000</n>")},
 				mut{"not-xml", "truncated document", d.xml[:len(d.xml)/2]},
 				mut{"not-xml", "empty document", ""})
+			// moduli whose bit length is next to a supported one (1..9 bits short, 1, 7, 8, 9 bits long)
+			for _, L := range []int{1024, 2048, 4096} {
+				for _, delta := range []int{-9, -8, -7, -6, -5, -4, -3, -2, -1, 1, 7, 8, 9} {
+					nv := new(big.Int).Add(new(big.Int).Lsh(big.NewInt(1), uint(L+delta-1)), big.NewInt(12345))
+					muts = append(muts, mut{"modulus-length-near-supported", fmt.Sprintf("modulus of %d bits (%d%+d)", L+delta, L, delta), regexp.MustCompile(`<n>(\d+)</n>`).ReplaceAllString(d.xml, "<n>"+nv.String()+"</n>")})
+				}
+			}
 		} else {
 			muts = append(muts,
 				mut{"inconsistent-primes", "pPrime+1", regexp.MustCompile(`<pPrime>(\d+)(\d)</pPrime>`).ReplaceAllString(d.xml, "<pPrime>${1}0</pPrime>")},
